@@ -172,15 +172,22 @@ func init() {
 		},
 
 		// ---- sync ----
-		"(*sync.Mutex).Lock":      noop,
-		"(*sync.Mutex).Unlock":    noop,
+		// mutexes: no-ops unless the harness opts in with sym.TrackMutexes: then the lock state is kept and
+		// acquiring a lock that is held parks the caller (blockedPanic, caught by sym.RunUntilBlocked) -- used to
+		// model "another goroutine calls X while this one is inside the monitor"
+		"(*sync.Mutex).Lock":      func(fr *frame, args []value) value { mutexLock(args[0], true); return nil },
+		"(*sync.Mutex).Unlock":    func(fr *frame, args []value) value { mutexUnlock(args[0], true); return nil },
 		"(*sync.Mutex).TryLock":   func(fr *frame, args []value) value { return true },
-		"(*sync.RWMutex).Lock":    noop,
-		"(*sync.RWMutex).Unlock":  noop,
-		"(*sync.RWMutex).RLock":   noop,
-		"(*sync.RWMutex).RUnlock": noop,
-		"(*sync.WaitGroup).Add":   noop,
-		"(*sync.WaitGroup).Done":  noop,
+		"(*sync.RWMutex).Lock":    func(fr *frame, args []value) value { mutexLock(args[0], true); return nil },
+		"(*sync.RWMutex).Unlock":  func(fr *frame, args []value) value { mutexUnlock(args[0], true); return nil },
+		"(*sync.RWMutex).RLock":   func(fr *frame, args []value) value { mutexLock(args[0], false); return nil },
+		"(*sync.RWMutex).RUnlock": func(fr *frame, args []value) value { mutexUnlock(args[0], false); return nil },
+		symPkg + "TrackMutexes": func(fr *frame, args []value) value {
+			cur.TrackMutex = args[0].(bool)
+			return nil
+		},
+		"(*sync.WaitGroup).Add":  noop,
+		"(*sync.WaitGroup).Done": noop,
 		// Wait: a no-op unless the harness opted in (sym.YieldOnWaitGroup): then the environment registered
 		// with sym.OnYield acts once (tag "wg"): it is expected to run the goroutines being waited for
 		"(*sync.WaitGroup).Wait": func(fr *frame, args []value) value {
@@ -498,4 +505,46 @@ func zTermOf(v value) *smt.Term {
 		unsupported("sym.Z of a bit-vector symbolic value (use sym.IntMode)")
 	}
 	return smt.IntConst(intOfConst(v))
+}
+
+// mutexLock / mutexUnlock keep the lock state when the harness asked for it (sym.TrackMutexes).
+// state: -1 write-locked, n > 0 read-locked n times.
+func mutexLock(m value, write bool) {
+	if cur == nil || !cur.TrackMutex {
+		return
+	}
+	p, ok := m.(*value)
+	if !ok {
+		return
+	}
+	if cur.mutexes == nil {
+		cur.mutexes = map[*value]int{}
+	}
+	st := cur.mutexes[p]
+	if write {
+		if st != 0 {
+			panic(blockedPanic{"lock of a mutex that is held"})
+		}
+		cur.mutexes[p] = -1
+		return
+	}
+	if st < 0 {
+		panic(blockedPanic{"read-lock of a mutex that is write-locked"})
+	}
+	cur.mutexes[p] = st + 1
+}
+
+func mutexUnlock(m value, write bool) {
+	if cur == nil || !cur.TrackMutex {
+		return
+	}
+	p, ok := m.(*value)
+	if !ok || cur.mutexes == nil {
+		return
+	}
+	if write {
+		cur.mutexes[p] = 0
+	} else if cur.mutexes[p] > 0 {
+		cur.mutexes[p]--
+	}
 }
